@@ -118,6 +118,8 @@ TRUSTED = [
     'falcon\'s own default error handlers and its 404/405 responders cannot be observed through the public API: the model\'s events for them are not compared, their effect is compared through the final status (and by C04)',
     'in the Pl.run / Pe.run correspondences the hook-wrapped responder is one responder action (what its first raising part does, else complete, else return) - proved sound: that is Ph.flatten, and Ph.hooks_refine_pe relates the two runs; the Ph.run correspondence compares the full trace with every hook event',
     'final resp.complete is read off the Response object the generated callees received (not observable by a server)',
+    'a static route is falcon\'s own responder: a recording subclass (installed as _STATIC_ROUTE_TYPE while add_static_route runs) notes `responder` when it returned normally; for the models a static route that serves is a passive sink, one that finds no file is the unrouted 404',
+    'Python argument binding of the app constructors and add_middleware are not modelled: the models receive the mode the test author configured (True when independent_middleware was left out - the documented default) and the components in the documented order',
 ]
 ASSUMPTIONS = [
     'an exception that no handler takes - a BaseException-only raise (not caught by falcon by design), or whatever an error handler raises other than HTTPError/HTTPStatus (falcon documents only these as raisable from handlers) - propagates to the server and ends the sequence: the "once each" part of the property is read as "up to that point" (Pe.run_prefix_Pl, Pe.unhandled_propagates_and_stops)',
@@ -129,7 +131,15 @@ ASSUMPTIONS = [
     'FALCON_CUSTOM_HTTP_METHODS=PURGE,SUBSCRIBE in every worker (set by harness/props/c03.py before falcon is imported; falcon reads it at import time); if falcon does not list them in COMBINED_METHODS the run says so in its notes and leaves custom methods out',
     'WebSocket handshakes: components, hooks and the responder either return or raise (HTTPForbidden, or an application error taken by falcon\'s default handler); the responder accepts the connection and returns',
 ]
-RULE = ('[two dimensions added after seeds C03_11 / C03_12: (a) the SPELLING of each HTTP middleware method is chosen PER METHOD inside one component (case key `spell`; `variant` was one spelling per component): '
+RULE = ('[two dimensions added after seeds C03_13 / C03_15: (A) HOW THE APP OBJECT IS CONSTRUCTED (case keys `entry`, `mode_arg`, `mw_arg`): through every public constructor name - falcon.App, the deprecated alias falcon.API, '
+        'falcon.asgi.App and a user subclass of each -, independent_middleware given by keyword, positionally or LEFT OUT (then the documented default, True, must be in force: the oracle and the models are told `independent`), the components handed to '
+        'the constructor (keyword / positional) or added afterwards with add_middleware (all at once, one by one as bare components / one-element lists, or half and half); enumerated: 6 names x 5 ways of giving the mode x 5 ways of giving the components x '
+        '{nothing raises, HTTPError / handled app error at process_request of the 1st / 2nd / 3rd component, at a process_resource, the responder, a process_response} x {route, unrouted} on a 4-component stack; random: 50 % of the cases name an entry point, '
+        '50 % of the independent ones leave the mode out, 35 % give the components another way; (B) REQUEST TARGETS THAT ARE NOT ROUTES (case key `target`): besides sink and unrouted a STATIC ROUTE serving an existing file, a fallback file, or no file (404), '
+        'with process_resource components in the stack; enumerated: 7 targets x 4 stacks containing process_resource methods x what the first of them would do if called {return, complete, HTTPError, handled app error} x both modes x WSGI+ASGI; random: 27 % of the cases; '
+        'the `resource` argument of every process_resource / process_response / process_resource_ws call is compared by identity with the object given to add_route (None when no route matched): resource methods run only after a successful ROUTE match; '
+        'for a static route that serves while every method just returns the body must be the file] '
+        '[two dimensions added after seeds C03_11 / C03_12: (a) the SPELLING of each HTTP middleware method is chosen PER METHOD inside one component (case key `spell`; `variant` was one spelling per component): '
         'ASGI {absent, plain coroutine, *_async next to a sync function of the plain name, *_async alone, *_async next to a plain coroutine - documented: the *_async one is the ASGI version}, '
         'WSGI {absent, absent but with an *_async version (ignored on WSGI), plain sync, plain sync next to an *_async coroutine}; enumerated: every combination over the three methods for a single component '
         '(124 ASGI + 56 WSGI), alone and between two full components x both modes x {route, unrouted} x fault-free and a raise at each of its methods; random: 35 % of the components of random stacks; '
@@ -214,6 +224,16 @@ RESOBJ = ['plain', 'empty_dict_subclass', 'empty_list_subclass', 'len_0', 'bool_
 STD_VERBS = ['GET', 'POST', 'PATCH']
 DAV_VERBS = ['REPORT', 'PROPFIND', 'MKCOL', 'VERSION-CONTROL']
 VERBS = STD_VERBS + DAV_VERBS + CUSTOM_METHODS          # run() removes CUSTOM_METHODS if falcon did not pick the variable up
+# how the routing outcome of a case is put to the models: a static route that SERVES (existing file / fallback file) is a responder of the
+# framework's that returns - like a passive sink; a static route that finds no file raises falcon's 404 - like an unrouted request
+TLETTER = {'route': 'r', 'nomethod': 'm', 'sink': 's', 'none': 'n', 'static': 's', 'static_fallback': 's', 'static_missing': 'n'}
+STATIC_TARGETS = ('static', 'static_fallback', 'static_missing')
+STATIC_FILE, STATIC_FALLBACK = b'falcon-static-file', b'falcon-static-fallback'
+_ASSETS = {'dir': None}      # a directory with logo.txt and index.txt, created by run()
+# every public way to construct an app object (label -> class; 'sub:' = a user subclass that adds nothing)
+ENTRIES = {'wsgi': ['falcon.App', 'falcon.API', 'sub:falcon.App', 'sub:falcon.API'], 'asgi': ['falcon.asgi.App', 'sub:falcon.asgi.App']}
+MODE_ARGS = ['keyword', 'omitted', 'positional']       # independent_middleware: by keyword, LEFT OUT (documented default True), positionally
+MW_ARGS = ['keyword', 'positional', 'add_middleware', 'add_middleware_one_by_one', 'split']   # how the components reach the app
 WS_CODE = {'http': 3403, 'app_d': 1011}                 # WebSocket close codes: HTTPForbidden -> 3403, unhandled application error -> 1011
 
 
@@ -292,10 +312,12 @@ def spec(case):
                         break
             # the responder only if nothing completed or raised
             if not st['complete'] and not st['raised']:
-                if target == 'none':
-                    raised('default', 'notfound')       # falcon's own responder raises HTTPNotFound: an HTTPError like any other
+                if target in ('none', 'static_missing'):
+                    raised('default', 'notfound')       # falcon's own responder (a static route without the file) raises HTTPNotFound: an HTTPError like any other
                 elif target == 'nomethod':
                     raised('default', 'nomethod')
+                elif target in ('static', 'static_fallback'):
+                    tr.append('responder')              # the static route serves the file: the responder of a request that matched NO route
                 else:
                     befores = [(k, a) for k, (kind, a) in enumerate(hooks) if kind == 'before']   # outermost first
                     afters = [(k, a) for k, (kind, a) in enumerate(hooks) if kind == 'after']
@@ -336,6 +358,11 @@ def _build(case, trace, box=None):
     class AppHR(Exception): pass
     excs = {'app_h': AppH, 'app_d': AppD, 'app_hh': AppHH, 'app_hs': AppHS, 'app_he': AppHE, 'app_hr': AppHR}
     table = case.get('handlers') or {}
+    routed = {}                 # 'obj': the resource object given to add_route (the `resource` argument middleware methods must receive)
+
+    def rarg(resource):
+        """'' if the `resource` argument is the routed resource object, else a marker that shows up in the trace"""
+        return '' if resource is routed.get('obj') else ':WRONG-resource-argument-' + type(resource).__name__
 
     def act(a, resp, label):
         trace.append(label)
@@ -414,14 +441,14 @@ def _build(case, trace, box=None):
             async def arq(self, req, resp, a=c['req']): act(a, resp, f'req:{i}')
             add('req', 'process_request', rq, arq)
         if c['rsrc'] is not None:
-            def rs(self, req, resp, resource, params, a=c['rsrc']): act(a, resp, f'rsrc:{i}')
-            async def ars(self, req, resp, resource, params, a=c['rsrc']): act(a, resp, f'rsrc:{i}')
+            def rs(self, req, resp, resource, params, a=c['rsrc']): act(a, resp, f'rsrc:{i}' + rarg(resource))
+            async def ars(self, req, resp, resource, params, a=c['rsrc']): act(a, resp, f'rsrc:{i}' + rarg(resource))
             add('rsrc', 'process_resource', rs, ars)
         if c['resp'] is not None:
             def rp(self, req, resp, resource, req_succeeded, a=c['resp']):
-                act(a, resp, f'resp:{i}:{str(resource is not None).lower()}:{str(req_succeeded is True).lower()}')
+                act(a, resp, f'resp:{i}:{str(resource is not None).lower()}:{str(req_succeeded is True).lower()}' + (rarg(resource) if resource is not None else ''))
             async def arp(self, req, resp, resource, req_succeeded, a=c['resp']):
-                act(a, resp, f'resp:{i}:{str(resource is not None).lower()}:{str(req_succeeded is True).lower()}')
+                act(a, resp, f'resp:{i}:{str(resource is not None).lower()}:{str(req_succeeded is True).lower()}' + (rarg(resource) if resource is not None else ''))
             add('resp', 'process_response', rp, arp)
         if not asgi:
             # WSGI: a method the component does NOT have for WSGI, but whose ASGI version `name_async` it has (a dual component that
@@ -445,12 +472,43 @@ def _build(case, trace, box=None):
             async def prw(self, req, ws, a=ex['request_ws']): act(a, ws, f'reqws:{i}')
             d['process_request_ws'] = (lambda self, *a, **k: trace.append(f'reqws:{i}')) if sync_extra else prw
         if 'resource_ws' in ex:
-            async def psw(self, req, ws, resource, params, a=ex['resource_ws']): act(a, ws, f'rsrcws:{i}')
+            async def psw(self, req, ws, resource, params, a=ex['resource_ws']): act(a, ws, f'rsrcws:{i}' + rarg(resource))
             d['process_resource_ws'] = (lambda self, *a, **k: trace.append(f'rsrcws:{i}')) if sync_extra else psw
         return type(f'C{i}', (), d)()
 
     comps = [component(i, c) for i, c in enumerate(case['comps'])]
-    app = (falcon.asgi.App if asgi else falcon.App)(middleware=comps, independent_middleware=case['independent'])
+    # HOW THE APP OBJECT IS CONSTRUCTED (case keys entry / mode_arg / mw_arg): through every public constructor name, independent_middleware
+    # given by keyword, positionally or LEFT OUT (then the documented default, True, must be in force: case['independent'] is True),
+    # the components handed to the constructor (keyword / positional) or added afterwards with add_middleware (documented: "as if they had
+    # been appended to the original middleware list passed to the class initializer")
+    base = falcon.asgi.App if asgi else falcon.App
+    entry = case.get('entry') or ('falcon.asgi.App' if asgi else 'falcon.App')
+    cls_ = {'falcon.App': falcon.App, 'falcon.API': falcon.API, 'falcon.asgi.App': falcon.asgi.App}[entry.replace('sub:', '')]
+    if entry.startswith('sub:'):
+        cls_ = type('UserApp', (cls_,), {'__doc__': 'a user subclass that adds nothing'})
+    mode_arg, mw_arg = case.get('mode_arg', 'keyword'), case.get('mw_arg', 'keyword')
+    if mode_arg == 'omitted':
+        assert case['independent'] is True, 'independent_middleware left out: the documented default is True'
+    h_ = len(comps) // 2
+    first, later = {'keyword': (comps, []), 'positional': (comps, []), 'add_middleware': (None, [comps]),
+                    'add_middleware_one_by_one': (None, [c_ if j_ % 2 == 0 else [c_] for j_, c_ in enumerate(comps)]),
+                    'split': (comps[:h_], [comps[h_:]])}[mw_arg]
+    args, kwargs = [], {}
+    if mode_arg == 'positional':
+        args = [falcon.DEFAULT_MEDIA_TYPE, None, None, first, None, case['independent']]
+    else:
+        if mw_arg == 'positional':
+            args = [falcon.DEFAULT_MEDIA_TYPE, None, None, first]
+        elif first is not None:
+            kwargs['middleware'] = first
+        if mode_arg == 'keyword':
+            kwargs['independent_middleware'] = case['independent']
+    import warnings
+    with warnings.catch_warnings():
+        warnings.simplefilter('ignore')              # falcon.API is deprecated (and still public)
+        app = cls_(*args, **kwargs)
+    for more in later:
+        app.add_middleware(more)                     # a list of components, or one bare component
     for name in CUSTOM_ALL:
         app.add_error_handler(excs[name], mkhandler(name, OWN_BEH[name]))
     # the registration table: the application's own handlers for HTTPStatus / HTTPError / Exception themselves (falcon documents:
@@ -534,7 +592,8 @@ def _build(case, trace, box=None):
             cls = deco(type('Res', (base,) + xb, dict(xn, on_delete=other)), hooks[:h])
         else:
             raise AssertionError(layout)
-        app.add_route('/', cls(), **({'suffix': suffix} if suffix else {}))
+        routed['obj'] = cls()
+        app.add_route('/', routed['obj'], **({'suffix': suffix} if suffix else {}))
         truth['v'] = not truth['v']        # (only the two *_after_add_route kinds read it)
     elif target == 'sink':
         ra = case['responder']
@@ -543,6 +602,26 @@ def _build(case, trace, box=None):
         else:
             def sink(req, resp, **kw): act(ra, resp, 'responder')
         app.add_sink(sink, '/')
+    elif target in STATIC_TARGETS:
+        # a request that is not matched by any route and yet answered: by a static route (existing file / fallback file / no file: 404).
+        # The static route object is falcon's; a recording subclass notes `responder` when it has served (returned normally).
+        from falcon.routing.static import StaticRoute, StaticRouteAsync
+        if asgi:
+            class RecStatic(StaticRouteAsync):
+                async def __call__(self, req, resp, **kw):
+                    await super().__call__(req, resp, **kw)
+                    trace.append('responder')
+        else:
+            class RecStatic(StaticRoute):
+                def __call__(self, req, resp, **kw):
+                    super().__call__(req, resp, **kw)
+                    trace.append('responder')
+        saved = base.__dict__['_STATIC_ROUTE_TYPE']
+        base._STATIC_ROUTE_TYPE = RecStatic
+        try:
+            app.add_static_route('/assets', _ASSETS['dir'], **({'fallback_filename': 'index.txt'} if target == 'static_fallback' else {}))
+        finally:
+            base._STATIC_ROUTE_TYPE = saved
     return app
 
 
@@ -553,7 +632,7 @@ def _model_line(case):
     def a1(a):
         return m.get(a, 'x')
     acts = [c[k] for c in case['comps'] for k in METHS] + [case['responder']] + [a for _, a in case['hooks']]
-    acts += {'none': ['notfound'], 'nomethod': ['nomethod']}.get(case['target'], [])      # what falcon's own responder raises
+    acts += {'none': ['notfound'], 'static_missing': ['notfound'], 'nomethod': ['nomethod']}.get(case['target'], [])      # what falcon's own responder raises
     if any(dispatch(case, a)[1] is None for a in acts if a in RAISES or a in ('notfound', 'nomethod')):
         return None             # some raise is not handled under this registration table (Pl.run has the one handled raise)
     # the hook-wrapped responder is one responder for Pl.run: it raises if any of its parts raises first, else completes if any part does
@@ -570,7 +649,7 @@ def _model_line(case):
                 comp = 'c'
     else:
         comp = a1(case['responder'])
-    t = {'route': 'r', 'nomethod': 'm', 'sink': 's', 'none': 'n'}[case['target']]
+    t = TLETTER[case['target']]
     return f"run {int(case['independent'])} {t} {comp} " + ' '.join(','.join(a1(c[k]) for k in METHS) for c in case['comps'])
 
 
@@ -588,7 +667,7 @@ def _modelx_line(case):
                 break
             if a == 'complete':
                 comp = 'complete'
-    t = {'route': 'r', 'nomethod': 'm', 'sink': 's', 'none': 'n'}[case['target']]
+    t = TLETTER[case['target']]
     return f"runx {int(case['independent'])} {t} {LETTER[comp]} " + ' '.join(','.join(LETTER[c[k]] for k in METHS) for c in case['comps'])
 
 
@@ -615,7 +694,7 @@ def _modelx_view(trace, r):
 def _modelh_line(case):
     """The case as input of Ph.run (phdriver `runh`): like `runx`, but the routed responder is NOT collapsed - the hooks are listed
     outermost first with the number of class-level ones - and the error handlers that set resp.complete are named."""
-    t = {'route': 'r', 'nomethod': 'm', 'sink': 's', 'none': 'n'}[case['target']]
+    t = TLETTER[case['target']]
     hooks = case['hooks'] if case['target'] == 'route' else []
     hs = ','.join(('b' if kind == 'before' else 'a') + LETTER[a] for kind, a in hooks) or '-'
     hc = ''.join(LETTER[n] for n in CUSTOM if n in case.get('hcomplete', ())) or '-'
@@ -647,7 +726,7 @@ def _tabled(case):
 def _modelt_line(case):
     """The case as input of Pg.run (pgdriver `runt`): the line of `runh` + the registration table (what the handlers registered for
     HTTPStatus, HTTPError, Exception do; `-` = falcon's default one stays); action letters name exception CLASSES."""
-    t = {'route': 'r', 'nomethod': 'm', 'sink': 's', 'none': 'n'}[case['target']]
+    t = TLETTER[case['target']]
     hooks = case['hooks'] if case['target'] == 'route' else []
     hs = ','.join(('b' if kind == 'before' else 'a') + LETTER[a] for kind, a in hooks) or '-'
     hc = ''.join(LETTER[n] for n in CUSTOM if n in case.get('hcomplete', ())) or '-'
@@ -705,13 +784,14 @@ def _execute(ctx, sess, hsess, case, via_testing=False, xsess=None, psess=None, 
     verb = case.get('verb', 'GET')
     if via_testing and case['stack'] == 'wsgi' and verb not in ('GET', 'POST', 'PATCH'):
         via_testing = False                 # wsgiref.validate (used by the WSGI testing client) rejects WebDAV / custom request methods
+    path = {'static': '/assets/logo.txt', 'static_fallback': '/assets/nope.txt', 'static_missing': '/assets/nope.txt'}.get(case['target'], '/')
     try:
         if via_testing:
-            r = call_via_testing(app, method=verb)
+            r = call_via_testing(app, method=verb, path=path)
         elif case['stack'] == 'asgi':
-            r = call_asgi(app, method=verb)
+            r = call_asgi(app, method=verb, path=path)
         else:
-            r = call_wsgi(app, method=verb)
+            r = call_wsgi(app, method=verb, path=path)
     except _BaseOnly as e:                  # lib_appcall reports Exception-derived escapes only
         r = Result(escaped=e)
     if via_testing and case['stack'] == 'asgi':
@@ -729,6 +809,10 @@ def _execute(ctx, sess, hsess, case, via_testing=False, xsess=None, psess=None, 
         what = f'final status {r.status}, expected {exp_status}'
     elif exp_esc and r.events:
         what = f'the exception reached the server, yet events were sent before: {r.events}'
+    elif (case['target'] in ('static', 'static_fallback') and not exp_esc and exp_status == 200 and 'responder' in exp_tr
+          and all(c[k] in (None, 'ret') for c in case['comps'] for k in METHS)
+          and r.body != (STATIC_FILE if case['target'] == 'static' else STATIC_FALLBACK)):
+        what = f'the static route served {r.body[:60]!r} although every middleware method just returned'
     ctx.oracle(ORACLE, what is None, what, dict(case, via_testing=via_testing))
     line = _model_line(case)
     if line is not None:
@@ -760,6 +844,14 @@ def _execute(ctx, sess, hsess, case, via_testing=False, xsess=None, psess=None, 
     ctx.count('stack_' + case['stack'])
     ctx.count('target_' + case['target'])
     ctx.count('mode_' + ('independent' if case['independent'] else 'dependent'))
+    if 'entry' in case or 'mode_arg' in case or 'mw_arg' in case:
+        ctx.count('constructed_by_' + case.get('entry', 'base class') + '_independent_middleware_' +
+                  {'omitted': 'OMITTED', 'keyword': 'by_keyword', 'positional': 'positional'}[case.get('mode_arg', 'keyword')])
+        ctx.count('components_given_' + case.get('mw_arg', 'keyword'))
+        if case.get('mode_arg') == 'omitted' and any(c['req'] in RAISES for c in case['comps']):
+            ctx.count('independent_middleware_OMITTED_and_a_process_request_raises_' + case.get('entry', 'base class'))
+    if case['target'] not in ('route', 'nomethod') and any(c['rsrc'] is not None for c in case['comps']):
+        ctx.count('request_without_route_match_' + case['target'] + '_with_process_resource_components')
     ctx.count(f"components_{len(case['comps'])}")
     for c in case['comps']:
         ex = c.get('extras') or {}
@@ -1021,6 +1113,63 @@ def _enumerated_spellings(ctx):
                                                              'responder': 'ret'}
 
 
+def _enumerated_ctor(ctx):
+    """THE DEFAULTS OF EVERY PUBLIC CONSTRUCTOR NAME: falcon.App / falcon.API / falcon.asgi.App and a user subclass of each x independent_middleware
+    {LEFT OUT (documented default: True), keyword True / False, positional True / False} x the components through the constructor (keyword /
+    positional), add_middleware (all at once / one by one) or both x where something raises (a process_request of the 1st / 2nd / 3rd component -
+    the only sites at which the two modes differ -, a process_resource, the responder, a process_response, nothing) x {HTTPError, handled app
+    error} x {route, unrouted}; stack: three full components and a process_response-only one."""
+    idx = 0
+    i, k = ctx.shard
+    sites = [None, (0, 'req'), (1, 'req'), (2, 'req'), (1, 'rsrc'), 'responder', (2, 'resp')]
+    for stack in ('wsgi', 'asgi'):
+        for entry in ENTRIES[stack]:
+            for mode_arg, indep in (('omitted', True), ('keyword', True), ('keyword', False), ('positional', True), ('positional', False)):
+                for mw_arg in MW_ARGS:
+                    for st_ in sites:
+                        for f in (('http', 'app_h') if st_ is not None else ('ret',)):
+                            for target in ('route', 'none'):
+                                idx += 1
+                                if idx % k != i:
+                                    continue
+                                comps = [{m: 'ret' for m in METHS} for _ in range(3)] + [{'req': None, 'rsrc': None, 'resp': 'ret'}]
+                                case = {'stack': stack, 'independent': indep, 'target': target, 'comps': comps, 'hooks': [], 'responder': 'ret',
+                                        'entry': entry, 'mode_arg': mode_arg, 'mw_arg': mw_arg}
+                                if st_ == 'responder':
+                                    case['responder'] = f
+                                elif st_ is not None:
+                                    comps[st_[0]][st_[1]] = f
+                                yield (0 if st_ is None else 1), case
+
+
+def _enumerated_targets(ctx):
+    """REQUEST TARGETS THAT ARE NOT ROUTES, with process_resource components present: a static route (existing file, fallback file, no file: 404),
+    a sink, nothing at all - and the two routed targets for comparison - x four stacks containing process_resource methods x what the first
+    process_resource would do if it were called {return, complete, raise HTTPError, raise a handled app error} x both modes x WSGI+ASGI, the
+    constructor name rotated.  Resource methods run only after a successful ROUTE match, and then they receive the routed resource object."""
+    idx = 0
+    i, k = ctx.shard
+    full = {m: 'ret' for m in METHS}
+    stacks = [[full], [full, full], [{'req': None, 'rsrc': 'ret', 'resp': None}],
+              [{'req': 'ret', 'rsrc': None, 'resp': None}, {'req': None, 'rsrc': 'ret', 'resp': None}, {'req': None, 'rsrc': None, 'resp': 'ret'}]]
+    for target in STATIC_TARGETS + ('sink', 'none', 'route', 'nomethod'):
+        for si, st_ in enumerate(stacks):
+            for f in ('ret', 'complete', 'http', 'app_h'):
+                for indep in (True, False):
+                    for stack in ('wsgi', 'asgi'):
+                        idx += 1
+                        if idx % k != i:
+                            continue
+                        comps = [dict(c) for c in st_]
+                        next(c for c in comps if c['rsrc'] is not None)['rsrc'] = f
+                        h = _mix(idx)
+                        case = {'stack': stack, 'independent': indep, 'target': target, 'comps': comps, 'hooks': [], 'responder': 'ret',
+                                'entry': ENTRIES[stack][h % len(ENTRIES[stack])]}
+                        if target == 'route' and (h // 8) % 2:
+                            case['resobj'] = RESOBJ[(h // 16) % len(RESOBJ)]
+                        yield (0 if f == 'ret' else 1), case
+
+
 LAYOUTS = ['flat', 'suffix', 'inherited', 'inherited_suffix', 'grandparent', 'mixin', 'base_decorated', 'split_decorated']
 
 
@@ -1048,12 +1197,23 @@ def _random_case(rnd):
         # a component without any HTTP method (ASGI accepts it if it has a lifespan or WebSocket method): a no-op in every HTTP stack
         comps.insert(rnd.randint(0, len(comps)), {'req': None, 'rsrc': None, 'resp': None,
                                                   'extras': {x: 'ret' for x in rnd.sample(EXTRAS, rnd.randint(1, len(EXTRAS)))}})
-    target = rnd.choice(['route', 'route', 'route', 'route', 'nomethod', 'sink', 'none'])
+    target = rnd.choice(['route', 'route', 'route', 'route', 'route', 'nomethod', 'sink', 'none', 'static', 'static_fallback', 'static_missing'])
     hooks = []
     if target == 'route' and rnd.random() < 0.6:
         hooks = [[rnd.choice(['before', 'after']), 'ret'] for _ in range(rnd.randint(1, 3))]
     case = {'stack': stack, 'independent': rnd.random() < 0.5, 'target': target, 'comps': comps,
             'hooks': hooks, 'responder': 'ret'}
+    # how the app object is constructed: entry point, independent_middleware by keyword / positional / LEFT OUT (documented default True), the
+    # components through the constructor or add_middleware
+    if rnd.random() < 0.5:
+        case['entry'] = rnd.choice(ENTRIES[stack])
+    r_ = rnd.random()
+    if r_ < 0.5 and case['independent']:
+        case['mode_arg'] = 'omitted'
+    elif r_ < 0.65:
+        case['mode_arg'] = 'positional'
+    if rnd.random() < 0.35:
+        case['mw_arg'] = rnd.choice(MW_ARGS)
     if rnd.random() < 0.5:
         case['verb'] = rnd.choice(VERBS)
     if target in ('route', 'nomethod') and rnd.random() < 0.5:
@@ -1076,6 +1236,8 @@ def _random_case(rnd):
             hooks[b][1] = f
         else:
             comps[a][b] = f
+    if target in STATIC_TARGETS:
+        case['responder'] = 'ret'          # the responder is falcon's static route: it serves (returns) or raises falcon's 404
     return case
 
 
@@ -1089,10 +1251,20 @@ def run(ctx):
         ctx.count('custom_methods_unavailable')
         for m in missing:
             VERBS.remove(m)
-    _requests(ctx)
-    _prepare(ctx)
-    _websocket(ctx)
-    _lifespan(ctx)
+    import shutil
+    import tempfile
+    _ASSETS['dir'] = tempfile.mkdtemp(prefix='c03static_')
+    try:
+        with open(_os.path.join(_ASSETS['dir'], 'logo.txt'), 'wb') as f:
+            f.write(STATIC_FILE)
+        with open(_os.path.join(_ASSETS['dir'], 'index.txt'), 'wb') as f:
+            f.write(STATIC_FALLBACK)
+        _requests(ctx)
+        _prepare(ctx)
+        _websocket(ctx)
+        _lifespan(ctx)
+    finally:
+        shutil.rmtree(_ASSETS['dir'], ignore_errors=True)
 
 
 def _requests(ctx):
@@ -1122,6 +1294,12 @@ def _requests(ctx):
         for nf, case in _enumerated_spellings(ctx):
             _execute(ctx, sess, hsess, case, xsess=xsess, psess=psess, tsess=tsess)
             ctx.count(f'enumerated_method_spellings_{nf}_fault')
+        for nf, case in _enumerated_ctor(ctx):
+            _execute(ctx, sess, hsess, case, xsess=xsess, psess=psess, tsess=tsess)
+            ctx.count(f'enumerated_constructor_names_and_defaults_{nf}_fault')
+        for nf, case in _enumerated_targets(ctx):
+            _execute(ctx, sess, hsess, case, xsess=xsess, psess=psess, tsess=tsess)
+            ctx.count(f'enumerated_targets_that_are_not_routes_{nf}_fault')
     for j in range(ctx.n(16000, 100000)):
         case = _random_case(rnd)
         _execute(ctx, sess, hsess, case, via_testing=(j % 16 == 0), xsess=xsess, psess=psess, tsess=tsess)
